@@ -883,7 +883,7 @@ pub fn run(args: &Args, report: &Report) {
         return;
     }
     let shards = 16usize;
-    let rounds: u64 = args.by_tier(2, 30);
+    let rounds: u64 = args.by_tier(3, 40);
     let msgs = 1200usize;
     let rep = report.clone();
     run_shards(report, args, shards, move |_shard, shard_seed| {
@@ -902,9 +902,9 @@ pub fn run(args: &Args, report: &Report) {
         report.require("expected.must_reject.reason.delegation_signed_by_non_current_protocol_key", 500);
         report.require("ops.rotate_protocol_key", 500);
         report.require("model.delegation_overwritten", 300);
-        report.require("boundary.rounds_completed", 24);
-        report.require("boundary.batch_before_expiry.judged_must_accept", 16);
-        report.require("boundary.replay_after_expiry.judged_must_reject", 24);
-        report.require("boundary.batch_after_expired_delegation_regossiped.judged_must_reject", 24);
+        report.require("boundary.rounds_completed", 32);
+        report.require("boundary.batch_before_expiry.judged_must_accept", 20);
+        report.require("boundary.replay_after_expiry.judged_must_reject", 32);
+        report.require("boundary.batch_after_expired_delegation_regossiped.judged_must_reject", 32);
     }
 }
